@@ -454,6 +454,20 @@ Example C09_apply_congr_example :
            [CEnum None; CInt 7; CEnum None]]%Z.
 Proof. vm_compute. repeat split; reflexivity. Qed.
 
+(* the premise upper_prog_okb cannot be dropped: same table, but the second frame's enum type has a value no row
+   uses and the oracle table of the case does not list; the model (like a harness that recorded ToUpper only on
+   the strings it saw) panics on one frame and not on the other *)
+Example C09_toupper_unused_value :
+  let f := mkFrame [([69%N], ECol [0; 0]%N [[97%N]] false)] [0; 1] false in
+  let g := mkFrame [([69%N], ECol [1; 1]%N [[122%N]; [97%N]] false)] [1; 0] false in
+  let is := [mkInstr (FBuiltin name_ToUpper) [70%N] [69%N] []] in
+  let ut := [([97%N], [65%N])] in
+  abs f = abs g /\ wf_frame f = true /\ wf_frame g = true
+  /\ upper_prog_okb ut f is = true /\ upper_prog_okb ut g is = false
+  /\ (do r <- apply ut f is; do t <- abs r; Ok (trows t)) = Ok [[CEnum (Some [97%N]); CEnum (Some [65%N])]; [CEnum (Some [97%N]); CEnum (Some [65%N])]]
+  /\ apply ut g is = Panic.
+Proof. vm_compute. repeat split; reflexivity. Qed.
+
 (* ---- WithRowNums: no premise beyond the common ones *)
 Theorem C09_with_row_nums_congr f g t name :
   abs f = Ok t -> abs g = Ok t -> ferr f = ferr g ->
@@ -462,43 +476,56 @@ Theorem C09_with_row_nums_congr f g t name :
 Proof. exact (with_row_nums_congr f g t name). Qed.
 Print Assumptions C09_with_row_nums_congr.
 
-(* ---- Filter, every clause tree.  Derived from the C02 theorem (model = row-wise specification) by showing that
-   the specification reads a row only through its cells and through the value list and strictness of enum
-   columns.  Premises: those of the C02 theorem for both frames (c02_premises_b: well formed, no Err, pairwise
-   different enum values, duplicate-free index, the specification answers for every leaf on every row, no
-   "not in"), at least one row (on a frame without rows the implementation validates the clause by other means
-   than row by row), and enum_metas: the enum columns have the same value lists and strictness - see the
-   counterexample above for why that cannot be dropped. *)
+(* ---- Filter, every clause tree: the executed model - generated kernels, shared masks, leaf batching, orFrames,
+   the Not merge - is run on the two frames side by side.  Premises beyond the common ones: enum_metas (the enum
+   columns have the same value lists and strictness - see the counterexample above for why that cannot be
+   dropped) and enum_nodup_b (pairwise different enum values, what the enum factory guarantees: a string then
+   has one rank).  No premise about recorded predicate / matcher tables (where one lacks an entry both runs
+   panic), none about the number of rows, none about comparator names or argument kinds. *)
 Theorem C09_filter_congr mt f g t c :
+  abs f = Ok t -> abs g = Ok t -> ferr f = ferr g -> wf_frame f = true -> wf_frame g = true ->
+  NoDup (ix f) -> NoDup (ix g) -> enum_metas f = enum_metas g -> enum_nodup_b f = true ->
+  same_result (frame_filter mt f c) (frame_filter mt g c).
+Proof. exact (fun H1 H2 H3 H4 H5 H6 H7 H8 H9 => proj2 (filter_congr_full mt f g t c H1 H2 H3 H4 H5 H6 H7 H8 H9)). Qed.
+Print Assumptions C09_filter_congr.
+
+(* the same as a corollary of the C02 theorem (model = row-wise specification), under that theorem's premises:
+   kept because it is an independent derivation through the specification *)
+Theorem C09_filter_congr_via_spec mt f g t c :
   abs f = Ok t -> abs g = Ok t ->
   c02_premises_b mt f c = true -> c02_premises_b mt g c = true -> trows t <> [] ->
   enum_metas f = enum_metas g ->
   same_visible (frame_filter mt f c) (frame_filter mt g c).
 Proof. exact (fun Hf Hg P1 P2 Hne Hm => proj2 (filter_congr mt f g t c Hf Hg P1 P2 Hne Hm)). Qed.
-Print Assumptions C09_filter_congr.
+Print Assumptions C09_filter_congr_via_spec.
+
+(* the index Filter returns is duplicate free when the frame's is (needed by the Apply theorems downstream) *)
+Theorem C09_filter_nodup mt c f r : NoDup (ix f) -> frame_filter mt f c = Ok r -> NoDup (ix r).
+Proof. exact (frame_filter_nodup mt c f r). Qed.
+Print Assumptions C09_filter_nodup.
 
 Definition ex_clause : clause :=
   CAnd [CLeaf (mkLeaf [67%N] (CmpName (bs 1 0x3c)) (AStr [121%N]) false);
         CNot (CLeaf (mkLeaf [66%N] (CmpName name_isnull) ANil false))].
 Example C09_filter_congr_example :
   c02_premises_b [] ex_f ex_clause = true /\ c02_premises_b [] ex_h ex_clause = true
-  /\ enum_metas ex_f = enum_metas ex_h
+  /\ enum_metas ex_f = enum_metas ex_h /\ enum_nodup_b ex_f = true
   /\ option_map ix (match frame_filter [] ex_f ex_clause with Ok r => Some r | _ => None end) = Some [2]
   /\ option_map ix (match frame_filter [] ex_h ex_clause with Ok r => Some r | _ => None end) = Some [0].
 Proof. vm_compute. repeat split; reflexivity. Qed.
 
 (* ---- FilteredApply: all rows of the result agree - the matching rows hold the program's values, the others
-   what the implementation leaves there (zero values, the constant, the copied column, "" for ToUpper into a
-   string column), whatever that is it is the same function of the row in both frames *)
+   what the implementation leaves there (zero values - also for a constant -, the copied column, "" for ToUpper
+   into a string column, the upper-cased value for ToUpper into an enum column): whatever that is, it is the same
+   function of the row in both frames *)
 Theorem C09_filtered_apply_congr mt ut f g t c is :
-  abs f = Ok t -> abs g = Ok t ->
-  c02_premises_b mt f c = true -> c02_premises_b mt g c = true -> trows t <> [] ->
-  enum_metas f = enum_metas g ->
+  abs f = Ok t -> abs g = Ok t -> ferr f = ferr g -> wf_frame f = true -> wf_frame g = true ->
+  NoDup (ix f) -> NoDup (ix g) -> enum_metas f = enum_metas g -> enum_nodup_b f = true ->
   forallb (fun i => afn_wf (ifn i)) is = true ->
   (forall ff, frame_filter mt f c = Ok ff -> upper_prog_okb ut (with_ix f (ix ff)) is = true) ->
   (forall gg, frame_filter mt g c = Ok gg -> upper_prog_okb ut (with_ix g (ix gg)) is = true) ->
   same_visible (filtered_apply mt ut f c is) (filtered_apply mt ut g c is).
-Proof. exact (filtered_apply_congr mt ut f g t c is). Qed.
+Proof. exact (filtered_apply_congr_full mt ut f g t c is). Qed.
 Print Assumptions C09_filtered_apply_congr.
 
 Example C09_filtered_apply_congr_example :
@@ -506,8 +533,8 @@ Example C09_filtered_apply_congr_example :
   /\ (forall gg, frame_filter [] ex_h ex_clause = Ok gg -> upper_prog_okb ex_ut (with_ix ex_h (ix gg)) ex_prog = true)
   /\ (do r <- filtered_apply [] ex_ut ex_f ex_clause ex_prog; do t <- abs r; Ok (map (fun row => skipn 1 row) (trows t)))
      = Ok [[CStr (Some [65%N]); CEnum (Some [120%N]); CEnum (Some [88%N]); CInt 7; CEnum (Some [88%N])];
-           [CStr (Some []); CEnum (Some [121%N]); CEnum (Some [88%N]); CInt 7; CEnum (Some [88%N])];
-           [CStr (Some []); CEnum None; CEnum None; CInt 7; CEnum None]]%Z
+           [CStr (Some []); CEnum (Some [121%N]); CEnum (Some [88%N]); CInt 0; CEnum (Some [88%N])];
+           [CStr (Some []); CEnum None; CEnum None; CInt 0; CEnum None]]%Z
   /\ (do r <- filtered_apply [] ex_ut ex_f ex_clause ex_prog; abs r)
      = (do r <- filtered_apply [] ex_ut ex_h ex_clause ex_prog; abs r).
 Proof.
@@ -516,17 +543,18 @@ Proof.
   split; vm_compute; reflexivity.
 Qed.
 
-(* ---- Eval: corollary of the C07 theorem (the stored column is the denotation of the tree on the logical
-   table).  Premises: those of C07_eval - registered context functions typed (ctx_ok), pairwise different
-   non-empty column names, hygienic column references, fewer than 10000 - temps_needed columns - and no open
-   sub-tree (has_open: a recorded table lacks an entry in an inner position, where the model panics in one
-   frame order and could report an error in another). *)
+(* ---- Eval: every expression tree (valid or not), every destination, proved by running the two executions side
+   by side: temporaries are named after the column NAMES only, which the two frames share, so both runs create,
+   find, capture and drop the same names.  Hence NONE of the premises of the C07 theorem is needed here (column
+   names may repeat or be shaped like temporaries, 10000 columns: both runs then panic together).
+   Only premise: the context functions are recorded tables with typed results and no built-in names (ctx_fn_ok).
+   Where a recorded table lacks an entry BOTH runs panic. *)
 Theorem C09_eval_congr ut cx f g t dst e :
+  ctx_fn_ok cx = true ->
   abs f = Ok t -> abs g = Ok t -> ferr f = ferr g -> wf_frame f = true -> wf_frame g = true ->
-  EvalFull.ctx_ok cx = true -> EvalFull.names_ok f = true -> EvalFull.expr_ok f e = true ->
-  (N.of_nat (length (cols f) + EvalFull.temps_needed e) <= 10000)%N -> EvalFull.has_open cx t e = false ->
-  same_visible (Eval.eval ut cx f dst e) (Eval.eval ut cx g dst e).
-Proof. exact (eval_congr ut cx f g t dst e). Qed.
+  NoDup (ix f) -> NoDup (ix g) ->
+  same_result (Eval.eval ut cx f dst e) (Eval.eval ut cx g dst e).
+Proof. exact (fun H => eval_congr_full ut cx H f g t dst e). Qed.
 Print Assumptions C09_eval_congr.
 
 Example C09_eval_congr_example :
@@ -535,8 +563,7 @@ Example C09_eval_congr_example :
                          (CFloat 0x7FF8000000000001, CFloat 0x7FF8000000000001, CFloat 0x7FF8000000000001);
                          (CFloat 0, CFloat 0, CFloat 0)]%N)] in
   let e := Eval.XColCol [43%N] [65%N] [65%N] in
-  EvalFull.ctx_ok cx = true /\ EvalFull.names_ok ex_f = true /\ EvalFull.expr_ok ex_f e = true
-  /\ (do t <- abs ex_f; Ok (EvalFull.has_open cx t e)) = Ok false
+  ctx_fn_ok cx = true
   /\ (do r <- Eval.eval [] cx ex_f [90%N] e; do t <- abs r; Ok (map (fun row => skipn 3 row) (trows t)))
      = Ok [[CFloat 0x4000000000000000]; [CFloat 0x7FF8000000000001]; [CFloat 0]]%N
   /\ (do r <- Eval.eval [] cx ex_f [90%N] e; abs r) = (do r <- Eval.eval [] cx ex_h [90%N] e; abs r).
@@ -548,5 +575,135 @@ Theorem C09_congruence2 : C09_congruence_statement2.
 Proof. exact congruence2. Qed.
 Print Assumptions C09_congruence2.
 (* Still NOT theorems: congruence for Sort, Distinct, GroupBy/Aggregate (their table-level characterisations
-   belong to C03/C04/C05), Filter and FilteredApply on frames WITHOUT rows, and congruence with respect to Equals
-   itself instead of table identity (it fails for -0 / +0: 1/x tells them apart). *)
+   belong to C03/C04/C05), and congruence with respect to Equals itself instead of table identity (it fails for
+   -0 / +0: a user function like 1/x tells them apart). *)
+
+(* ================================================================== wave 3: String()
+   Model/StringRender.v is the executable model of QFrame.String() with fixLengthString and the per-column
+   StringAt(i, "null"), on the PHYSICAL frame (cells read at index[i]); tstring_lines is the statement on the
+   logical table.  NO ENGINE RUNS THIS MODEL YET (check_string in Model/StringRender.v is the ready-made check);
+   the table-level text was compared once by hand with the implementation on 8 derived frames (more than 50
+   rows, cut cells, NaN, nulls, no rows, no columns): all agreed. *)
+From QF Require Import Model.StringRender Proofs.StringRenderProofs.
+
+(* The lines String() joins with "\n" are, for every frame without Err whose table can be read - whatever its
+   physical layout and row index -:
+     the header (every column name followed by "(" first letter of its type ")", right-aligned to the column
+       width = max(length of that header, 5)), the dashes,
+     THE FIRST min(n, 50) ROWS OF THE TABLE IN ROW ORDER, every cell rendered by StringAt(_, "null")
+       (string_at: FormatInt / FormatFloat or "null" for NaN / FormatBool / the string or "null" for null)
+       and then cut or right-aligned to its column width (fix_len), fields joined by one space,
+     "... printout truncated ..." exactly when the table has more than 50 rows,
+     "\nDims = <columns> x <rows>".
+   For every float formatter ff (strconv.FormatFloat(x, 'f', -1, 64) is an oracle, as for ToCSV). *)
+Theorem C09_string_rows ff f t :
+  abs f = Ok t -> ferr f = false ->
+  frame_string_lines ff f
+  = Ok (theader t :: tdashes t :: map (print_row ff (twidths t)) (firstn 50 (trows t))
+        ++ (if 50 <? length (trows t) then [str_truncated] else [])
+        ++ [dims_line (length (tnames t)) (length (trows t))]).
+Proof. exact (string_lines_spec ff f t). Qed.
+Print Assumptions C09_string_rows.
+
+Theorem C09_string ff f t : abs f = Ok t -> ferr f = false -> frame_string ff f = Ok (tstring ff t).
+Proof. exact (string_spec ff f t). Qed.
+Print Assumptions C09_string.
+
+(* the i-th printed row (line 2 + i) is the i-th row of the table, for i < 50 *)
+Theorem C09_string_row_nth ff t i row :
+  i < 50 -> nth_error (trows t) i = Some row ->
+  nth_error (tstring_lines ff t) (2 + i) = Some (print_row ff (twidths t) row).
+Proof. exact (printed_row_nth ff t i row). Qed.
+Print Assumptions C09_string_row_nth.
+
+Theorem C09_string_lines_count ff t :
+  length (tstring_lines ff t) = 2 + Nat.min 50 (length (trows t)) + (if 50 <? length (trows t) then 1 else 0) + 1.
+Proof. exact (lines_count ff t). Qed.
+Print Assumptions C09_string_lines_count.
+
+(* the documented cell-width truncation: a field has exactly the column width (>= 5); a text that fits is printed
+   completely, right-aligned; a longer one is cut to its first width-3 BYTES followed by "..." *)
+Theorem C09_string_cell_width s pad n : 3 <= n -> length (fix_len s pad n) = n.
+Proof. exact (fix_len_length s pad n). Qed.
+Print Assumptions C09_string_cell_width.
+Theorem C09_string_cell_fits s pad n : length s <= n -> fix_len s pad n = repeat pad (n - length s) ++ s.
+Proof. exact (fix_len_fits s pad n). Qed.
+Print Assumptions C09_string_cell_fits.
+Theorem C09_string_cell_cut s pad n : n < length s -> fix_len s pad n = firstn (n - 3) s ++ str_dots.
+Proof. exact (fix_len_cut s pad n). Qed.
+Print Assumptions C09_string_cell_cut.
+Theorem C09_string_col_width name t : 5 <= col_width name t /\ length (col_header name t) <= col_width name t.
+Proof. exact (col_width_ge name t). Qed.
+Print Assumptions C09_string_col_width.
+
+(* String and ToCSV render a cell in the same way (StringAt); only the text for null / NaN differs *)
+Theorem C09_string_at_csv ff c : string_at ff [] c = csv_cell ff c.
+Proof. exact (string_at_csv ff c). Qed.
+Print Assumptions C09_string_at_csv.
+Theorem C09_string_at_null ff na c :
+  string_at ff na c = match c with
+                      | CFloat x => if CsvSpec.is_nan_bits x then na else csv_cell ff c
+                      | CStr None | CEnum None => na
+                      | _ => csv_cell ff c
+                      end.
+Proof. exact (string_at_na ff na c). Qed.
+Print Assumptions C09_string_at_null.
+
+(* on a well-formed frame without Err String() never panics; frames with the same table print the same text *)
+Theorem C09_string_total ff f : wf_frame f = true -> ferr f = false -> exists s, frame_string ff f = Ok s.
+Proof. exact (string_total ff f). Qed.
+Print Assumptions C09_string_total.
+Theorem C09_string_congr ff f g t :
+  abs f = Ok t -> abs g = Ok t -> ferr f = false -> ferr g = false -> frame_string ff f = frame_string ff g.
+Proof. exact (string_congr ff f g t). Qed.
+Print Assumptions C09_string_congr.
+
+(* ---- one Example per branch of the code (vm_compute) *)
+Definition ex_ff : N -> bytes := ff_of [(0x3FF0000000000000, [49]); (0, [48])]%N.
+(* (1) a derived frame (ex_f: physical order differs from row order): NaN and null print as "null", fitting
+   cells are right-aligned, the header of a short name is padded to width 5:
+       " A(f)  B(s)  C(e)" / "----- ----- -----" / "    1     a     x" / " null  null     y" / "    0        null" *)
+Example C09_string_example_rows :
+  frame_string_lines ex_ff ex_f
+  = Ok [[32; 65; 40; 102; 41; 32; 32; 66; 40; 115; 41; 32; 32; 67; 40; 101; 41];
+        [45; 45; 45; 45; 45; 32; 45; 45; 45; 45; 45; 32; 45; 45; 45; 45; 45];
+        [32; 32; 32; 32; 49; 32; 32; 32; 32; 32; 97; 32; 32; 32; 32; 32; 120];
+        [32; 110; 117; 108; 108; 32; 32; 110; 117; 108; 108; 32; 32; 32; 32; 32; 121];
+        [32; 32; 32; 32; 48; 32; 32; 32; 32; 32; 32; 32; 32; 110; 117; 108; 108];
+        [10; 68; 105; 109; 115; 32; 61; 32; 51; 32; 120; 32; 51]]%N
+  /\ frame_string ex_ff ex_f = frame_string ex_ff ex_h.
+Proof. split; vm_compute; reflexivity. Qed.
+(* (2) cells longer than the column are cut to width-3 bytes + "...": the string "abcdefghijklm" in the column
+   "longname(s)" of width 11 prints "abcdefgh...", the int -123456 in a column of width 5 prints "-1..." *)
+Example C09_string_example_cut :
+  frame_string_lines ex_ff
+    (mkFrame [([108;111;110;103;110;97;109;101]%N, SCol [Some [97;98;99;100;101;102;103;104;105;106;107;108;109]%N; Some [120]%N]);
+              ([73]%N, ICol [-123456; 7]%Z)] [1; 0] false)
+  = Ok [[108; 111; 110; 103; 110; 97; 109; 101; 40; 115; 41; 32; 32; 73; 40; 105; 41];
+        [45; 45; 45; 45; 45; 45; 45; 45; 45; 45; 45; 32; 45; 45; 45; 45; 45];
+        [32; 32; 32; 32; 32; 32; 32; 32; 32; 32; 120; 32; 32; 32; 32; 32; 55];
+        [97; 98; 99; 100; 101; 102; 103; 104; 46; 46; 46; 32; 45; 49; 46; 46; 46];
+        [10; 68; 105; 109; 115; 32; 61; 32; 50; 32; 120; 32; 50]]%N.
+Proof. vm_compute. reflexivity. Qed.
+(* (3) 51 rows (a reversed sub-index of 60 physical rows): 50 printed rows in row order ("   53" first, "    4"
+   last), then the truncation marker, then "\nDims = 1 x 51" *)
+Example C09_string_example_truncated :
+  (do l <- frame_string_lines ex_ff (mkFrame [([73]%N, ICol (map Z.of_nat (seq 0 60)))] (rev (seq 3 51)) false);
+   Ok (length l, nth 2 l [], nth 51 l [], nth 52 l [], nth 53 l []))
+  = Ok (54, [32; 32; 32; 53; 51]%N, [32; 32; 32; 32; 52]%N, str_truncated,
+        [10; 68; 105; 109; 115; 32; 61; 32; 49; 32; 120; 32; 53; 49]%N).
+Proof. vm_compute. reflexivity. Qed.
+(* (4) no columns: "\n\n\nDims = 0 x 0";  (5) a frame with Err: the error text (not modelled) *)
+Example C09_string_example_empty :
+  frame_string ex_ff (mkFrame [] [] false) = Ok [10; 10; 10; 68; 105; 109; 115; 32; 61; 32; 48; 32; 120; 32; 48]%N
+  /\ frame_string ex_ff (mkFrame [] [] true) = Fail.
+Proof. split; vm_compute; reflexivity. Qed.
+(* (6) fixLengthString below width 3 would panic in the implementation (negative slice bound); String() never
+   gets there because every width is at least 5 *)
+Example C09_string_example_narrow : fix_length [97; 98; 99]%N 32%N 2 = Panic /\ fix_length [97; 98; 99]%N 32%N 3 = Ok [97; 98; 99]%N.
+Proof. split; vm_compute; reflexivity. Qed.
+(* (7) the engine-side check: 0 for the text the model prints, 2 (property oracle) for any other text *)
+Example C09_string_example_check :
+  (do s <- frame_string ex_ff ex_f; Ok (check_string [(0x3FF0000000000000, [49]); (0, [48])]%N ex_f s)) = Ok 0%N
+  /\ check_string [(0x3FF0000000000000, [49]); (0, [48])]%N ex_f [] = 2%N.
+Proof. split; vm_compute; reflexivity. Qed.
